@@ -38,7 +38,10 @@ Inst == [ nodes |-> S2(Run.inst.nodes),
           linked |-> [st \in {s \in Sts : IsEdge(s)} |-> Row(st).linked],
           dE |-> Fn("dE"), lE |-> Fn("lE"), dN |-> Fn("dN"), lN |-> Fn("lN"),
           tiE |-> [st \in {s \in Sts : IsEdge(s)} |-> [t \in 0..(T - 1) |-> Row(st).ti[t + 1]]],
-          skipNE |-> Fn("skip"), tr |-> Run.inst.tr ]
+          skipNE |-> Fn("skip"), tr |-> Run.inst.tr,
+          hasTT |-> Run.inst.hasTT,
+          tt |-> [k \in {<<x[1], x[2], x[3]>> : x \in S2(Run.inst.tt)} |->
+                    (CHOOSE x \in S2(Run.inst.tt) : <<x[1], x[2], x[3]>> = k)[4]] ]
 Cf0 == Run.cf
 Ev == Run.events[i + 1]
 CfAt(ev) == [Cf0 EXCEPT !.W = ev.w]
@@ -55,7 +58,7 @@ HistNoWiden == \A j \in 1..(i + 1) : Run.events[j].op # "widen"
 NOf(ev) == IF ev.op = "widen" THEN plen ELSE ev.arg
 \* ---- clauses, per property; "" = holds
 C01Clause(I, cf, ev) ==
-  IF cf.tables /\ Fresh(ev) /\ ~cf.ne /\ cf.W = NoW /\ FirstOrder(cf)
+  IF cf.oracle /\ Fresh(ev) /\ ~cf.ne /\ cf.W = NoW /\ FirstOrder(cf)
      /\ ~Optimal(I, cf, ev.arg, [path |-> ev.path, idx |-> ev.idx]) THEN "not-optimal" ELSE ""
 C02Clause(I, cf, ev) == IF cf.tables /\ ~PathScoresMatchModel(I, cf, ev.path) THEN "path-score" ELSE ""
 C03Clause(I, cf, ev) ==
@@ -70,9 +73,9 @@ C03Clause(I, cf, ev) ==
           THEN "empty-result-although-the-first-observation-has-a-live-candidate"
      ELSE IF Len(ev.path) > 0 /\ ev.idx # ev.path[Len(ev.path)].obs THEN "index-not-last-emitting"
      ELSE IF Len(ev.path) > 0 /\ complete /\ ev.early # -1 THEN "complete-but-early-stop"
-     ELSE IF cf.tables /\ Fresh(ev) /\ ~cf.ne /\ cf.W = NoW /\ FirstOrder(cf) /\ ((Len(ev.path) = 0) # (Reach(I, cf, 0) = {}))
+     ELSE IF cf.oracle /\ Fresh(ev) /\ ~cf.ne /\ cf.W = NoW /\ FirstOrder(cf) /\ ((Len(ev.path) = 0) # (Reach(I, cf, 0) = {}))
           THEN "empty-iff-no-admissible-first-candidate"
-     ELSE IF cf.tables /\ Fresh(ev) /\ ~cf.ne /\ cf.W = NoW /\ FirstOrder(cf) /\ Len(ev.path) > 0 /\ ev.idx # OptIdx(I, cf, NOf(ev))
+     ELSE IF cf.oracle /\ Fresh(ev) /\ ~cf.ne /\ cf.W = NoW /\ FirstOrder(cf) /\ Len(ev.path) > 0 /\ ev.idx # OptIdx(I, cf, NOf(ev))
           THEN "index-not-longest-explainable-prefix"
      ELSE ""
 C04Clause(I, cf, ev) ==
